@@ -34,6 +34,8 @@ class Impl:
         if self.mode == 'full':
             s += ' ' + ' '.join(f'{p.name}={hand(e.hands[p])}' for p in Player)
             s += f' av={hand(e.current_available_cards_in_hand(e.active_player))}'
+            # … and for every seat, on turn or not (what a display of all four hands would ask)
+            s += ''.join(f' av{p.name}={hand(e.current_available_cards_in_hand(p))}' for p in Player)
         elif self.mode == 'obs':
             s += f' me={e.player.name} hand={hand(e.hand)} dh={"none" if e.dummy_hand is None else hand(e.dummy_hand)}'
             s += f' av={hand(e.current_available_cards_in_hand())}'
